@@ -32,9 +32,15 @@ static std::vector<TagInfo>* g_tags;
 static __thread int tl_depth;
 static int g_depth_max;
 
+// stand-ins for a task's captured input and for its output (declared accesses, see hx.h)
+static char g_tag_cells[1 << 16][2];
+static inline char* tagCell(int id, int which) {
+  return &g_tag_cells[(size_t)id & 0xffff][which];
+}
 int tagNew(int api, int64_t aux) {
   if (!g_tags)
     g_tags = new std::vector<TagInfo>();
+  raceW(tagCell((int)g_tags->size(), 0), "task-input");
   TagInfo t;
   memset(&t, 0, sizeof t);
   t.api = api;
@@ -56,13 +62,19 @@ void tagStart(int id) {
   t.start_tid = sim_tid();
   t.start_step = sim_step();
   t.start_last_load_step = sim_last_load_step();
+  raceR(tagCell(id, 0), "task-input");
   sim_event(1, id, t.starts);
 }
 void tagFinish(int id) {
   TagInfo& t = tag(id);
   t.finishes++;
   t.finish_step = sim_step();
+  raceW(tagCell(id, 1), "task-output");
   sim_event(2, id, t.finishes);
+}
+void tagObserve(int id) {
+  if (tag(id).finishes)
+    raceR(tagCell(id, 1), "task-output");
 }
 void tagsReset() {
   if (g_tags)
@@ -105,7 +117,10 @@ static std::vector<const Workload*> select(const char* prop, const char* wname, 
   std::vector<const Workload*> v;
   for (const Workload& w : hx::registry()) {
     // "ALL" (used by the whole-library sanitizer checks C10/C11) selects every workload
-    if (strcmp(prop, "ALL") && strcmp(w.prop, prop))
+    // "RACE" (C10) does the same with the happens-before race detector switched on
+    if (strcmp(prop, "ALL") && strcmp(prop, "RACE") && strcmp(w.prop, prop))
+      continue;
+    if (!strcmp(w.prop, "SELFTEST") && strcmp(prop, "SELFTEST"))
       continue;
     if (wname && strcmp(w.name, wname))
       continue;
@@ -143,6 +158,7 @@ struct Args {
   int tier = 0;
   int policy = -1;
   uint64_t explore_override = 0;
+  int mode = 0; // 0 property oracles, 1 memory-only (C11), 2 data-race-only (C10)
 };
 
 static double nowSec() {
@@ -168,8 +184,12 @@ static void runOne(const Workload* w, uint64_t seed, const Args& a, const char* 
   // SIM+ASAN engine: pre-emption comes from the coverage guard quantum (see simrt.cpp)
   if (__asan_init)
     o.pcguard_quantum_max = 150;
-  if (a.prop && !strcmp(a.prop, "ALL"))
+  if (a.mode == 1)
     sim_set_memonly(1);
+  if (a.mode == 2) {
+    sim_set_memonly(2);
+    sim_race_enable(1);
+  }
   alarm(300);
   sim_begin(&o);
   sim_note(w->name, 0);
@@ -255,6 +275,8 @@ int main(int argc, char** argv) {
       a.time_budget = atof(argv[++i]);
     else if (is("--outdir") && i + 1 < argc)
       a.outdir = argv[++i];
+    else if (is("--race"))
+      a.mode = 2;
     else if (is("--replay") && i + 1 < argc)
       a.replay = argv[++i];
     else if (is("--trace") && i + 1 < argc)
@@ -300,6 +322,9 @@ int main(int argc, char** argv) {
       fprintf(stderr, "bad replay file %s\n", a.replay);
       return 2;
     }
+    char modebuf[16];
+    readField(a.replay, "mode", modebuf, sizeof modebuf);
+    a.mode = atoi(modebuf);
     a.prop = propbuf;
     a.workload = wlbuf;
     a.seed_base = strtoull(seedbuf, nullptr, 10);
@@ -309,6 +334,10 @@ int main(int argc, char** argv) {
     fprintf(stderr, "--prop required\n");
     return 2;
   }
+  if (!strcmp(a.prop, "ALL"))
+    a.mode = 1;
+  if (!strcmp(a.prop, "RACE"))
+    a.mode = 2;
   std::vector<const Workload*> sel = select(a.prop, a.workload, a.tier);
   if (sel.empty()) {
     fprintf(stderr, "no workload for %s/%s\n", a.prop, a.workload ? a.workload : "*");
